@@ -107,12 +107,13 @@ def run(tier):
             ann = '\n'.join(annotate(ln, rng) for ln in strip_headers(text).split('\n'))
             rf.read_back(PROP, 'ja', 'ja', real, add, dict(base, annotated=True), text=ann, reader=read_ccgbank, suffix='.ja')
     rejects, stats = validate('traces/RenderTrace.tla', events, 'c20', per_shard=400)
+    demo = rf.render_binding_demo(events, 'c20')
     viols = []
     for (i, clause) in rejects:
         if clause.startswith(PROP + '.'):
             m = metas[i]
             viols.append(Violation(PROP, clause, (m.get('probe', '') + ' ' + str(m.get('words')))[:300].strip(), m))
-    cov = {'states': stats.states, 'transitions': stats.transitions, 'traces_validated_against_impl': len(events),
+    cov = {'states': stats.states, 'transitions': stats.transitions, 'binding_demonstration': demo, 'traces_validated_against_impl': len(events),
            'events': {'batches_per_format': n, 'truncated_ptb_lines': n_trunc, 'events': len(events),
                       'read_events': sum(1 for e in events if e['e'] == 'read')},
            'samples': [{k: metas[i][k] for k in metas[i] if k in ('lang', 'fmt', 'words', 'text')} for i in (1, len(events) // 2, len(events))],
